@@ -82,11 +82,18 @@ def handle (l : Line) : Option Verdict :=
       if l.outStr "err" == some "1" then .diverge "unexpected-error"
       else match l.outNat "nel", l.outNat "n", (l.outStr "leaves").bind (parseList parseLeaf), (l.outStr "els").bind (parseList parseEl) with
       | some nel, some n, some lv, some els =>
-        let b := cols.foldl (fun b c => b.addColumn c.info) Impl.Schema.Builder.create
+        let b := cols.foldl (fun b c => b.add c.info) Impl.Schema.Builder.create
+        let allCols := cols.all (fun c => c.info.ptype.isSome)
         let flat : Node := .group Impl.Schema.rootInfo (cols.map (fun c => .leaf c.info))
+        -- with groups (empty groups under the root: the builder API cannot give them children) the property is the
+        -- element list itself: every entry in call order under a root that counts them all, leaves = the typed entries
+        let expectEls : List Element := ⟨Impl.Schema.rootInfo, cols.length⟩ ::
+          cols.map (fun c => ⟨if c.info.ptype.isSome then c.info else { c.info with typeLength := 0 }, 0⟩)
         verdict [("impl_model_elements", b.elements == els), ("impl_model_leaves", b.leaves == lv),
                  ("impl_model_counts", b.elements.length == nel && b.leaves.length == n)]
-                [("builder_matches_flat_spec", els == flatten flat && lv == leaves flat && n == cols.length)]
+                (if allCols then [("builder_matches_flat_spec", els == flatten flat && lv == leaves flat && n == cols.length)]
+                 else [("builder_elements_in_call_order", els == expectEls),
+                       ("builder_leaves_are_the_typed_entries", n == (cols.filter (fun c => c.info.ptype.isSome)).length)])
       | _, _, _, _ => .bad "outs"
   | _ => none
 
